@@ -30,6 +30,48 @@ theorem flatMap_length_const {α : Type} (l : List α) (g : α → Bytes) (n : N
       rw [List.flatMap_cons, List.length_append, h x (by simp), ih (fun y hy => h y (by simp [hy]))]
       simp [Nat.add_mul]; omega
 
+/-! ### ASCII lower-casing keeps a string well-formed UTF-8 -/
+
+/-- states the UTF-8 walker can be in: a continuation octet is never an ASCII letter -/
+def U8Inv (s : U8St) : Prop := s.need = 0 ∨ 128 ≤ s.lo
+
+theorem utf8Step_inv (s s' : U8St) (b : Nat) (h : utf8Step s b = some s') : U8Inv s' := by
+  unfold utf8Step at h
+  repeat' split at h
+  all_goals (first | cases h | skip)
+  all_goals (unfold U8Inv; simp)
+
+theorem utf8Step_lower (s : U8St) (b : Nat) (hs : U8Inv s) : utf8Step s (lower b) = utf8Step s b := by
+  unfold lower
+  split
+  · rename_i hb
+    unfold utf8Step
+    by_cases hn : s.need = 0
+    · have h1 : b + 32 < 128 := by omega
+      have h2 : b < 128 := by omega
+      simp only [hn, if_true, h1, h2]
+    · have hlo : 128 ≤ s.lo := by rcases hs with h | h; exact absurd h hn; exact h
+      have c1 : ¬ (s.lo ≤ b + 32 ∧ b + 32 ≤ s.hi) := by omega
+      have c2 : ¬ (s.lo ≤ b ∧ b ≤ s.hi) := by omega
+      simp only [hn, if_false, c1, c2]
+  · rfl
+
+theorem utf8Run_lower (o : Option U8St) (b : Bytes) (ho : ∀ s, o = some s → U8Inv s) :
+    utf8Run o (b.map lower) = utf8Run o b := by
+  induction b generalizing o with
+  | nil => cases o <;> rfl
+  | cons x xs ih =>
+      cases o with
+      | none => rfl
+      | some s =>
+          simp only [List.map_cons, utf8Run]
+          rw [utf8Step_lower s x (ho s rfl)]
+          exact ih _ (fun s' hs' => utf8Step_inv s s' x hs')
+
+theorem utf8Valid_lower (b : Bytes) : utf8Valid (b.map lower) = utf8Valid b := by
+  unfold utf8Valid
+  rw [utf8Run_lower _ b (by intro s hs; cases hs; exact Or.inl rfl)]
+
 theorem lor_flags (flags time : Nat) (hf : flags < 16) (ht : time < 4096) :
     Nat.lor (flags * 4096 % 65536) time = flags * 4096 + time := by
   have h1 : flags * 4096 % 65536 = flags * 4096 := Nat.mod_eq_of_lt (by omega)
@@ -331,14 +373,8 @@ theorem decodeCap_enc (c : Cap) (h : capOk c = true) : decodeCap (capCode c) (ca
             rw [hlen]; omega
           simp only [hc2, if_false]
           rw [List.take_of_length_le (by simp)]
-          have a1 : (hh.map lower).all (fun x => decide (x < 128)) = true := by
-            rw [List.all_eq_true]; intro x hx
-            obtain ⟨y, hy, rfl⟩ := List.mem_map.mp hx
-            simpa using lower_lt y (by simpa using hh1 y hy)
-          have a2 : (d.map lower).all (fun x => decide (x < 128)) = true := by
-            rw [List.all_eq_true]; intro x hx
-            obtain ⟨y, hy, rfl⟩ := List.mem_map.mp hx
-            simpa using lower_lt y (by simpa using hd1 y hy)
-          simp [a1, a2]
+          have a1 : utf8Valid (hh.map lower) = true := by rw [utf8Valid_lower]; exact hh1
+          have a2 : utf8Valid (d.map lower) = true := by rw [utf8Valid_lower]; exact hd1
+          simp [utf8OrEmpty, a1, a2]
 
 end Rbgp.Enc
